@@ -19,6 +19,7 @@ import (
 	"path/filepath"
 	"strings"
 	"sync"
+	"sync/atomic"
 	"time"
 
 	"verif/harness/vclient"
@@ -121,6 +122,10 @@ func child() {
 	wg.Wait()
 	if !w.bad.Load() {
 		w.checkCanary("after the batch")
+	}
+	if !w.bad.Load() {
+		legalFlood(w)
+		w.checkCanary("after the flood of legal messages")
 	}
 	run.Max("max_scheduling_stall_ms", w.stall.maxMS())
 	run.Count("batches_completed", 1)
@@ -261,3 +266,77 @@ func floors(run *vk.Run, jobs int) {
 }
 
 var _ = vclient.Tick
+
+// legalFlood: nothing malformed at all.  Four members of one group change their own data as
+// fast as they can (a legal 'setdata' each time) and chat, while eight other clients join and
+// leave that group in a loop: every join reads every member's data and permissions.  A crash
+// of the process (a concurrent map access is fatal, not a recoverable panic) ends the batch
+// and is reported by the parent with the last commands noted here.
+func legalFlood(w *world) {
+	g := "canary"
+	stop := make(chan struct{})
+	var wg sync.WaitGroup
+	var sent, joins atomic.Int64
+	w.run.Note("legal flood: 4 members send setdata/chat as fast as they can while 8 clients join and leave group canary")
+	for k := 0; k < 4; k++ {
+		wg.Add(1)
+		go func(k int) {
+			defer wg.Done()
+			id := fmt.Sprintf("flood-b%d-%d", w.batch, k)
+			c, err := dialHS(w.srv, id)
+			if err != nil {
+				return
+			}
+			defer c.Close()
+			if m, ok := c.Join(g, "op1", "pw-op1"); !ok || m.Str("kind") != "join" {
+				return
+			}
+			for n := 0; ; n++ {
+				select {
+				case <-stop:
+					return
+				default:
+				}
+				m := vclient.Msg{"type": "useraction", "kind": "setdata", "source": id, "dest": id, "value": map[string]any{fmt.Sprintf("k%d", n%7): n}}
+				if n%16 == 15 {
+					m = vclient.Msg{"type": "chat", "source": id, "username": "op1", "value": "flood"}
+				}
+				if c.Send(m) != nil {
+					return
+				}
+				sent.Add(1)
+				if n%256 == 255 && !c.Ping(20*time.Second) {
+					return
+				}
+			}
+		}(k)
+	}
+	for k := 0; k < 8; k++ {
+		wg.Add(1)
+		go func(k int) {
+			defer wg.Done()
+			for i := 0; ; i++ {
+				select {
+				case <-stop:
+					return
+				default:
+				}
+				c, err := dialHS(w.srv, fmt.Sprintf("floodj-b%d-%d-%d", w.batch, k, i))
+				if err != nil {
+					return
+				}
+				u := wsUsers[(i+k)%len(wsUsers)]
+				if m, ok := c.Join(g, u.name, u.pw); ok && m.Str("kind") == "join" {
+					joins.Add(1)
+				}
+				c.Close()
+			}
+		}(k)
+	}
+	time.Sleep(1500 * time.Millisecond)
+	close(stop)
+	wg.Wait()
+	w.run.Eval(sent.Load() + joins.Load())
+	w.run.Count("legal_flood_messages", sent.Load())
+	w.run.Count("legal_flood_concurrent_joins", joins.Load())
+}
